@@ -6,6 +6,7 @@
        -> `if C: S[v:=X] else: S`
  N38 `D[k] = A if C else B` (a statement)  ->  `if C: D[k] = A else: D[k] = B`
  N39 `len(X) if X else 0` -> `len(X or ())`
+ N48 `return {K: A if C else B for T in XS}` -> the loop that builds it;  N49 a dead store of a name/constant (`_ = x`) is dropped
  N46 a local bound only to literals, once per branch, is replaced by the literal that reaches each read (straight-line, outside loops)
  N47 `next(<generator expression>)` without a default -> `[<comprehension>][0]`
  N42 `isinstance(E.yaml_node, yaml.SequenceNode)` -> `E.is_sequence()`, MappingNode -> `E.is_mapping()` (outside the predicates)
@@ -44,8 +45,20 @@ class _Subst(ast.NodeTransformer):
         return self.generic_visit(n)
 
 
+def _own_nodes(fn):
+    """nodes of fn without the insides of nested classes and functions (their statements are not this function's)"""
+    stack = [fn]
+    while stack:
+        n = stack.pop()
+        yield n
+        for c in ast.iter_child_nodes(n):
+            if isinstance(c, (ast.ClassDef, ast.FunctionDef, ast.AsyncFunctionDef, ast.Lambda)):
+                continue
+            stack.append(c)
+
+
 def _blocks(fn):
-    for n in ast.walk(fn):
+    for n in _own_nodes(fn):
         for fld in ('body', 'orelse', 'finalbody'):
             v = getattr(n, fld, None)
             if isinstance(v, list) and v and isinstance(v[0], ast.stmt):
@@ -428,12 +441,65 @@ def _n47(tree):
     return T().visit(tree)
 
 
+def _n49(fn):
+    """N49 a store of a plain name or constant into a local that nobody reads (`_ = defaults`) is dropped"""
+    params = {a.arg for a in ast.walk(fn.args) if isinstance(a, ast.arg)}
+    declared = {nm for n in ast.walk(fn) if isinstance(n, (ast.Global, ast.Nonlocal)) for nm in n.names}
+    loaded = {n.id for n in ast.walk(fn) if isinstance(n, ast.Name) and isinstance(n.ctx, ast.Load)}
+    for holder, fld, blk in list(_blocks(fn)):
+        keep = [st for st in blk if not (isinstance(st, ast.Assign) and len(st.targets) == 1 and isinstance(st.targets[0], ast.Name)
+                                         and isinstance(st.value, (ast.Name, ast.Constant)) and st.targets[0].id not in loaded
+                                         and st.targets[0].id not in params and st.targets[0].id not in declared)]
+        if len(keep) != len(blk):
+            setattr(holder, fld, keep or [ast.Pass()])
+
+
+def _n48(fn, counter):
+    """N48 a dict comprehension whose value is a conditional expression, returned or bound to a name, is the loop that builds it:
+    `return {K: A if C else B for T in XS}` -> `d = {}; for T in XS: d[K] = A if C else B; return d` (N38 then splits the store)"""
+    for holder, fld, blk in list(_blocks(fn)):
+        out = []
+        for st in blk:
+            val = st.value if isinstance(st, (ast.Return, ast.Assign)) else None
+            if (isinstance(val, ast.DictComp) and len(val.generators) == 1 and not val.generators[0].is_async
+                    and isinstance(val.value, ast.IfExp)
+                    and (isinstance(st, ast.Return) or (len(st.targets) == 1 and isinstance(st.targets[0], ast.Name)))):
+                g = val.generators[0]
+                gen_names = {x.id for x in ast.walk(g.target) if isinstance(x, ast.Name)}
+                inside = {id(x) for x in ast.walk(val)}
+                if any(isinstance(x, ast.Name) and x.id in gen_names and id(x) not in inside for x in ast.walk(fn)):
+                    out.append(st)
+                    continue
+                if isinstance(st, ast.Return):
+                    counter[0] += 1
+                    name = 'built__z%d' % counter[0]
+                else:
+                    name = st.targets[0].id
+                for x in ast.walk(g.target):
+                    if isinstance(x, ast.Name):
+                        x.ctx = ast.Store()
+                store = ast.Assign([ast.Subscript(ast.Name(name, ast.Load()), val.key, ast.Store())], val.value, lineno=st.lineno)
+                body = [store]
+                if g.ifs:
+                    cond = g.ifs[0] if len(g.ifs) == 1 else ast.BoolOp(ast.And(), list(g.ifs))
+                    body = [ast.If(cond, body, [])]
+                out.append(ast.copy_location(ast.Assign([ast.Name(name, ast.Store())], ast.Dict([], []), lineno=st.lineno), st))
+                out.append(ast.copy_location(ast.For(g.target, g.iter, body, [], lineno=st.lineno), st))
+                if isinstance(st, ast.Return):
+                    out.append(ast.copy_location(ast.Return(ast.Name(name, ast.Load())), st))
+            else:
+                out.append(st)
+        setattr(holder, fld, out)
+
+
 def pre_normalize(tree: ast.Module) -> ast.Module:
     tree = _n39(tree)
     tree = _n47(tree)
     _n42(tree)
     counter = [0]
     for fn in [n for n in ast.walk(tree) if isinstance(n, (ast.FunctionDef, ast.AsyncFunctionDef))]:
+        _n49(fn)
+        _n48(fn, counter)
         _n46(fn)
         _n41(fn)
         _n43(fn)
